@@ -216,18 +216,6 @@ pub fn stub_adt_new<'a: 'a, 'b: 'b, 'c: 'c>(
     Err(desert_core::Error::InputEndedUnexpectedly)
 }
 
-/// Stand-in for the encoder of `DeduplicatedString` in harnesses whose claim does not depend on
-/// the string table (`nodedup` variant of `proof!`): it writes one arbitrary byte, i.e. every
-/// table behaviour is over-approximated by "some byte". Only used under Kani.
-#[cfg(kani)]
-pub fn stub_dedup_serialize<O: desert_core::BinaryOutput>(
-    _this: &desert_core::DeduplicatedString,
-    context: &mut desert_core::SerializationContext<O>,
-) -> desert_core::Result<()> {
-    desert_core::BinaryOutput::write_u8(context, kani::any());
-    Ok(())
-}
-
 /// Declares a harness: a Kani proof under `cargo kani`, an ordinary `#[test]` natively.
 /// `v0only` additionally applies `stub_adt_new`.
 #[macro_export]
@@ -239,22 +227,6 @@ macro_rules! proof {
         #[kani::unwind($u)]
         #[kani::stub(std::fmt::format, $crate::sym::stub_format)]
         #[kani::stub(core::fmt::write, $crate::sym::stub_fmt_write)]
-        pub fn $name() $body
-
-        #[cfg(all(not(kani), test))]
-        #[test]
-        fn $name() {
-            $crate::sym::native_run(stringify!($name), || $body)
-        }
-    };
-    ($(#[$m:meta])* nodedup fn $name:ident() unwind($u:expr) $body:block) => {
-        $(#[$m])*
-        #[cfg(kani)]
-        #[kani::proof]
-        #[kani::unwind($u)]
-        #[kani::stub(std::fmt::format, $crate::sym::stub_format)]
-        #[kani::stub(core::fmt::write, $crate::sym::stub_fmt_write)]
-        #[kani::stub(<desert_core::DeduplicatedString as desert_core::serializer::BinarySerializer>::serialize, $crate::sym::stub_dedup_serialize)]
         pub fn $name() $body
 
         #[cfg(all(not(kani), test))]
